@@ -113,7 +113,7 @@ func CreateAbsoluteURL(url string, base *nurl.URL) string {
 	// character in its path the URL is written out from its decoded path, where an
 	// escaped reserved character of the page (%2F, %3F ...) is the character
 	// itself and changes what the URL refers to.
-	tmp, err = nurl.Parse(escapeInvalidURLChars(url))
+	tmp, err = nurl.Parse(EscapeInvalidURLChars(url))
 	if err != nil {
 		return url
 	}
@@ -121,7 +121,10 @@ func CreateAbsoluteURL(url string, base *nurl.URL) string {
 	return base.ResolveReference(tmp).String()
 }
 
-func escapeInvalidURLChars(url string) string {
+// EscapeInvalidURLChars escapes the characters of an URL that may not be written in an
+// URL as they are (white space, non-ASCII ...) and leaves everything else alone, so that
+// the URL can be parsed and written out again with its own escapes intact.
+func EscapeInvalidURLChars(url string) string {
 	const upperHex = "0123456789ABCDEF"
 
 	var sb strings.Builder
